@@ -8,6 +8,7 @@ package control
 import (
 	"encoding/json"
 	"fmt"
+	"net/netip"
 	"testing"
 	"time"
 
@@ -44,6 +45,11 @@ func c17Decode(ty string, v string) (ok bool, known bool) {
 	case "string":
 		var x string
 		return common.FuzzyDecode(&x, v), true
+	case "netip.AddrPort":
+		_, err := netip.ParseAddrPort(v)
+		return err == nil, true
+	case "httpmethod":
+		return common.IsValidHttpMethod(v), true
 	}
 	return false, false
 }
